@@ -5,6 +5,7 @@ outcome class and error variant in the spelling of the Rust `Debug` output.
 -/
 import Driver.Basic
 import AstGrepVerif.Model.Loader
+import AstGrepVerif.Model.GlobalLoader
 
 open Lean AGV AGV.Loader
 
@@ -175,6 +176,30 @@ def opYamlLoadPreFix : Handler := fun a => do
   let doc ← ldDoc (← a.getObjVal? "doc")
   pure (outcomeJson true (loadPreFix doc))
 
+/-- a global utility document: `{"id", "core" (as in a document of `yaml_load`), "expando"?}` -/
+def ldGlobal (j : Json) : Except String SGlobal := do
+  pure { id := (← getStr j "id").toList, core := ← ldCore (← j.getObjVal? "core"),
+         expando := (getChar j "expando").toOption.getD '$' }
+
+/-- the error kinds of `parse_global_utils` in the spelling of the harness (role `util`:
+`Global.` + the variant path of the `RuleCoreError`) -/
+def globalsOutcomeJson (cmpv : Bool) : Res CoreErr (List LoadedGlobal) → Json
+  | .ok _ => Json.mkObj [("c", "ok"), ("v", "")]
+  | .err e => Json.mkObj [("c", "err"), ("v", if cmpv then "Global." ++ coreErrName e else "*")]
+  | .panic _ => Json.mkObj [("c", "panic"), ("v", "")]
+
+/-- `globals_load`: outcome class and error kind of `DeserializeEnv::parse_global_utils` on a set
+of global utility documents (`globals`: list of `ldGlobal` documents, in some map order) -/
+def opGlobalsLoad : Handler := fun a => do
+  let cmpv := (getBool a "cmpv").toOption.getD true
+  let gs ← (← getArr a "globals").toList.mapM ldGlobal
+  pure (globalsOutcomeJson cmpv (loadGlobals gs))
+
+/-- the same before the two repairs of global loading (replays of the counter-examples) -/
+def opGlobalsLoadPreFix : Handler := fun a => do
+  let gs ← (← getArr a "globals").toList.mapM ldGlobal
+  pure (globalsOutcomeJson true (loadGlobalsPreFix gs))
+
 def mveSlotJson : MetaVarExtract × Nat → Json
   | (.single n, _) => Json.arr #[Json.str "single", jBytes n]
   | (.multiple n, _) => Json.arr #[Json.str "multi", jBytes n]
@@ -209,6 +234,7 @@ def opFixApply : Handler := fun a => do
     pure (Json.mkObj [("out", jBytes (generateReplacement src start env t))])
 
 def loaderOps : List (String × Handler) := [
-  ("yaml_load", opYamlLoad), ("yaml_load_prefix", opYamlLoadPreFix), ("fix_apply", opFixApply)]
+  ("yaml_load", opYamlLoad), ("yaml_load_prefix", opYamlLoadPreFix), ("fix_apply", opFixApply),
+  ("globals_load", opGlobalsLoad), ("globals_load_prefix", opGlobalsLoadPreFix)]
 
 end Driver
